@@ -115,10 +115,24 @@ Section Unary.
     loads R rmul cs xs N ->
     map (fun a => rmul a N) (spread R rmul cs r) = map (fun x => rmul x r) xs.
   Proof. exact (spread_loads R r0 r1 radd rmul rsub ropp Rring). Qed.
+
+  (* tree loader, recursive form (the link "the breadth-first RBS gate list of unary_encoder computes
+     spread_tree" is NOT proved here; it is covered by the data-level tests): every leaf amplitude times
+     the root norm is its datum, zero blocks included *)
+  Theorem unary_tree_ok_ring : forall (t : ltree R) N a,
+    loads_tree R rmul t N ->
+    map (fun u => rmul u N) (spread_tree R rmul t a) = map (fun x => rmul x a) (tree_data R t).
+  Proof. exact (spread_tree_loads R r0 r1 radd rmul rsub ropp Rring). Qed.
 End Unary.
+Print Assumptions unary_tree_ok_ring.
 Print Assumptions rbs_chain_rotations.
 Print Assumptions unary_diagonal_ok_ring.
 
 (* non-vacuity over Z: data (3, 4) scaled: N0 = 5, c0 N0 = 3, s0 N0 = 4 with (c0, s0) = (3, 4), N0 = 1 *)
+(* data (0, 0, 3, 4): the left block is all zero; theta = 0 there (c = 1, s = 0) *)
+Example loads_tree_zero_block :
+  loads_tree Z Z.mul (Node Z 0 1 (Node Z 1 0 (Leaf Z 0) (Leaf Z 0)) (Node Z 3 4 (Leaf Z 3) (Leaf Z 4)))%Z 1%Z.
+Proof. simpl. repeat split; reflexivity. Qed.
+
 Example loads_example : loads Z Z.mul [(3, 4)%Z] [3; 4]%Z 1%Z.
 Proof. simpl. split; reflexivity. Qed.
